@@ -743,7 +743,7 @@ paf24_write_i (SF_PRIVATE *psf, const int *ptr, sf_count_t len)
 	while (len > 0)
 	{	writecount = (len > 0x10000000) ? 0x10000000 : (int) len ;
 
-		count = paf24_write (psf, ppaf24, ptr, writecount) ;
+		count = paf24_write (psf, ppaf24, ptr + total, writecount) ;
 
 		total += count ;
 		len -= count ;
